@@ -67,7 +67,7 @@ func TestC09ConcurrentAddresses(t *testing.T) {
 			n := rapid.IntRange(1, maxCalls).Draw(t, "nCalls")
 			for k := 0; k < n; k++ {
 				p := pairs[rapid.IntRange(0, len(pairs)-1).Draw(t, "pair")]
-				p.Kind = rapid.SampledFrom([]string{"new", "new", "change", "change", "current", "create", "create-dry", "fundpsbt"}).Draw(t, "kind")
+				p.Kind = rapid.SampledFrom([]string{"new", "new", "change", "change", "current", "create", "create-dry", "fundpsbt", "fundpsbt-inputs", "fundpsbt-inputs"}).Draw(t, "kind")
 				scripts[w] = append(scripts[w], p)
 			}
 			c.Logf("worker %d: %v", w, scripts[w])
@@ -202,6 +202,9 @@ func TestC09ConcurrentAddresses(t *testing.T) {
 			if r.call.Kind != "new" {
 				wantBranch = 1
 			}
+			if r.call.Kind == "fundpsbt-inputs" {
+				c.Class("fundpsbt-with-caller-inputs-issued-change")
+			}
 			if sc != r.call.Scope || dp.InternalAccount != r.call.Account || dp.Branch != wantBranch {
 				s.F.Violation("%s obtained %s which is %v account %d branch %d", who, a, sc, dp.InternalAccount, dp.Branch)
 			}
@@ -316,6 +319,33 @@ func doCall(s *walletsim.Scenario, cl call) (btcutil.Address, error) {
 			return nil, nil
 		}
 		_, addrs, _, err := txscript.ExtractPkScriptAddrs(tx.Tx.TxOut[tx.ChangeIndex].PkScript, s.F.Params)
+		if err != nil || len(addrs) != 1 {
+			return nil, fmt.Errorf("cannot parse change script: %v", err)
+		}
+		return addrs[0], nil
+	case "fundpsbt-inputs":
+		// FundPsbt with inputs chosen by the caller: the wallet only adds the change output
+		sc := cl.Scope
+		var pick *walletsim.Coin
+		for _, co := range s.Eligible(walletsim.EligibleQuery{Scope: &sc, Account: cl.Account, MinConf: 1}) {
+			if co.Value > 20_000 && (pick == nil || co.OutPoint.String() < pick.OutPoint.String()) {
+				pick = co
+			}
+		}
+		if pick == nil {
+			return nil, fmt.Errorf("no coin for an explicit-input PSBT")
+		}
+		out := wire.NewTxOut(1500, []byte{0x00, 0x14, 1, 2, 3, 4, 5, 6, 7, 8, 9, 10, 11, 12, 13, 14, 15, 16, 17, 18, 19, 22})
+		op := pick.OutPoint
+		pkt, err := psbt.New([]*wire.OutPoint{&op}, []*wire.TxOut{out}, 2, 0, []uint32{wire.MaxTxInSequenceNum})
+		if err != nil {
+			return nil, err
+		}
+		changeIdx, err := w.FundPsbt(pkt, &sc, 1, cl.Account, 1000, wallet.CoinSelectionLargest)
+		if err != nil || changeIdx < 0 {
+			return nil, err
+		}
+		_, addrs, _, err := txscript.ExtractPkScriptAddrs(pkt.UnsignedTx.TxOut[changeIdx].PkScript, s.F.Params)
 		if err != nil || len(addrs) != 1 {
 			return nil, fmt.Errorf("cannot parse change script: %v", err)
 		}
